@@ -419,6 +419,18 @@ theorem captured_intact_mode (f : Mode.Forest) (hn : (Mode.started (Mode.flatten
     (by intro a ha; cases ha)
   exact ⟨F.cell, F.unbound, B.outs, fun b hb => Mode.out_only_read _ _ b hb⟩
 
+/-- **Overlapping executions with capture off are harmless** (the contrast to `overlap_counterexample`, F-C17a):
+    steps of capture-off executions in *any* order -- any number of threads, any interleaving, not even the program
+    order of a thread is needed -- leave the cell holding the original stream, put every write on the original
+    stream in the order it happened, and set no `out`.  With capture off nothing but the object already in the cell
+    is ever stored into it. -/
+theorem nocapture_overlap_harmless (evs : List Mode.Ev) (h : Mode.ncOnly evs = true) :
+    (Mode.run Fwd.St.init evs).cell = .orig ∧
+    (Mode.run Fwd.St.init evs).origLog = Mode.allWrites evs ∧
+    (∀ a, (Mode.run Fwd.St.init evs).out a = none) := by
+  have I := Mode.nc_only_inv evs Fwd.St.init h rfl (fun _ => Or.inr rfl) (fun _ => Or.inl rfl)
+  refine ⟨I.1, by simpa [Fwd.St.init] using I.2.1, fun a => by rw [I.2.2]; rfl⟩
+
 /-- the machine with the live copy (`restore_nested_live`) is the all-capture fragment of `Mode` -/
 theorem mode_extends_fwd (f : Fwd.Forest) (o : Option Act) (s : Fwd.St) :
     Mode.run s (Mode.flatten o (Mode.ofFwdForest f)) = Fwd.run s (Fwd.flatten o f) := by
@@ -571,6 +583,14 @@ example :
     (Mode.run Fwd.St.init (Mode.flatten none f)).out 1 = none ∧
     (Mode.run Fwd.St.init (Mode.flatten none f)).out 2 = some [(2, 3)] ∧
     (Mode.run Fwd.St.init (Mode.flatten none f)).origLog = [(0, 1), (1, 2), (1, 4), (0, 5)] := by
+  decide
+
+/-- the interleaving of `overlap_counterexample` with capture off (both live): harmless -/
+example :
+    let evs : List Mode.Ev := [.getlive 0 true, .swapNC 0, .getlive 1 true, .swapNC 1, .write 0 7, .restoreNC 0,
+                               .write 1 8, .restoreNC 1]
+    Mode.ncOnly evs = true ∧ (Mode.run Fwd.St.init evs).cell = .orig ∧
+    (Mode.run Fwd.St.init evs).origLog = [(0, 7), (1, 8)] := by
   decide
 
 end DoitModel.C17
